@@ -823,7 +823,7 @@ theorem arctan2Obj_congr {y y' x x' : Obj K} (hy : LowEq y y') (hx : LowEq x x')
     have hsq : ∀ {a b : MArr K}, ALow a b →
         ALow (a.map fun c => (⟨P.mul c.v c.v, c.m⟩ : Cell K)) (b.map fun c => (⟨P.mul c.v c.v, c.m⟩ : Cell K)) :=
       fun hab => ni_lift_unary (f := fun c => (⟨P.mul c.v c.v, c.m⟩ : Cell K)) (fun c hc => hc) hab
-    have hdinv := ni_lift_unary (recip_strict P) (zipbin_congr P.add rfl (hsq bx.1) (hsq bY.1))
+    have hdinv := ni_lift_unary (recip_strict P) (zipbin_congr P.add (by rfl) (hsq bx.1) (hsq bY.1))
     refine ⟨zipbin_congr _ rfl bY.1 bx.1, mergeD_congr (s := out) (zipbin_merge _ _) (neg_merge P _)
       (DLow_map ?_ bY.2) (DLow_map ?_ bx.2)⟩
     · intro a b hsd hd
@@ -1077,7 +1077,7 @@ theorem shrinkUnshrinkObj_congr {x y : Obj K} (h : LowEq x y) (am : Arr Bool) :
 
 /-- low-equivalent environments -/
 def EnvLow (e e' : Env K) : Prop :=
-  F2 LowEq e.objs e'.objs ∧ F2 ALow e.idxs e'.idxs ∧ e.ams = e'.ams
+  F2 LowEq e.objs e'.objs ∧ F2 ALow e.idxs e'.idxs ∧ e.ams = e'.ams ∧ e.consts = e'.consts
 
 theorem getD_forall2 {α : Type} {R : α → α → Prop} {l l' : List α} (h : F2 R l l') (i : Nat)
     (d d' : α) (hd : R d d') : R (l.getD i d) (l'.getD i d') := by
@@ -1097,51 +1097,130 @@ structure SafeConsts (P : Prims K) : Prop where
   arc0 : arcBad P P.zero = false
   recip1 : recipBad P P.one = false
 
-/-- **ni_program** (congruence form): for every expression tree over the catalogue, of any depth,
+/-- the expressions for which non-interference is PROVED.  Every constructor of the language is allowed
+    everywhere, except the three operations whose treatment of DERIVATIVES leaks (open findings
+    KF-C03-11, KF-C03-12, KF-C03-13, see the `…_counterexample` theorems): `mask_where_xx(remask=True)`,
+    `clip(remask=False)` and pickling must be applied to a derivative-free operand (`x.wod`). -/
+inductive Safe : Expr → Prop
+  | var (i : Nat) : Safe (.var i)
+  | un {op : UOp} {e : Expr} : op ≠ .pickle → Safe e → Safe (.un op e)
+  | pickleW {e : Expr} : Safe e → Safe (.un .pickle (.un .wod e))
+  | bin {op : BOp} {e1 e2 : Expr} : Safe e1 → Safe e2 → Safe (.bin op e1 e2)
+  | red {op : ROp} {axes : List Nat} {e : Expr} : Safe e → Safe (.red op axes e)
+  | sort {axis : Nat} {e : Expr} : Safe e → Safe (.sort axis e)
+  | index {e : Expr} {iv : Nat} : Safe e → Safe (.index e iv)
+  | shrinkUnshrink {am : Nat} {e : Expr} : Safe e → Safe (.shrinkUnshrink am e)
+  | powG {ik ikm1 : Nat} {e : Expr} : Safe e → Safe (.powG ik ikm1 e)
+  | mwF {k : CmpKind} {il : Nat} {ir : Option Nat} {e : Expr} : Safe e → Safe (.mw k il ir false e)
+  | mwW {k : CmpKind} {il : Nat} {ir : Option Nat} {e : Expr} : Safe e → Safe (.mw k il ir true (.un .wod e))
+  | clipT {ilo ihi : Nat} {e : Expr} : Safe e → Safe (.clip ilo ihi true e)
+  | clipW {ilo ihi : Nat} {e : Expr} : Safe e → Safe (.clip ilo ihi false (.un .wod e))
+
+/-- one evaluation step through a total object function -/
+theorem step_congr {r r' : Except Err (Obj K)} {f g : Obj K → Obj K} (hc : RLow r r')
+    (hf : ∀ x y, LowEq x y → r = .ok x → LowEq (f x) (g y)) :
+    RLow (match (generalizing := false) r with | .error er => .error er | .ok x => .ok (f x))
+         (match (generalizing := false) r' with | .error er => .error er | .ok x => .ok (g x)) := by
+  cases r with
+  | error a =>
+    cases r' with
+    | error b => exact hc
+    | ok _ => exact False.elim hc
+  | ok x =>
+    cases r' with
+    | error b => exact False.elim hc
+    | ok y => exact hf x y hc rfl
+
+theorem wod_result {env : Env K} {e : Expr} {x : Obj K} (h : eval P env (.un .wod e) = .ok x) : x.d = none := by
+  simp only [eval] at h
+  cases h1 : eval P env e with
+  | error er => rw [h1] at h; cases h
+  | ok z => rw [h1] at h; simp only [evalU] at h; cases h; rfl
+
+/-- **ni_program** (congruence form): for every SAFE expression tree over the catalogue, of any depth,
     low-equivalent environments give the same exception or low-equivalent results -/
-theorem ni_program_low (hs : SafeConsts P) {env env' : Env K} (h : EnvLow env env') (e : Expr) :
+theorem ni_program_low (hs : SafeConsts P) {env env' : Env K} (h : EnvLow env env') {e : Expr} (hsafe : Safe e) :
     RLow (eval P env e) (eval P env' e) := by
-  induction e with
+  induction hsafe with
   | var i =>
     exact getD_forall2 h.1 i _ _ ⟨ALow.refl _, trivial⟩
-  | un op e ih =>
+  | @un op e hop _ ih =>
     simp only [eval]
     cases h1 : eval P env e <;> cases h2 : eval P env' e <;> simp_all [RLow]
-    exact evalU_congr P hs.exp0 hs.sqrt1 hs.log1 hs.arc0 hs.recip1 op ih
-  | bin op e1 e2 ih1 ih2 =>
+    exact evalU_congr P hs.exp0 hs.sqrt1 hs.log1 hs.arc0 hs.recip1 op hop ih
+  | @pickleW e _ ih =>
+    have hw : RLow (eval P env (.un .wod e)) (eval P env' (.un .wod e)) := by
+      simp only [eval]
+      cases h1 : eval P env e <;> cases h2 : eval P env' e <;> simp_all [RLow]
+      exact ⟨ih.1, trivial⟩
+    have hn : ∀ x, eval P env (.un .wod e) = .ok x → x.d = none := fun x hx => wod_result P hx
+    generalize Expr.un UOp.wod e = c at hw hn
+    simp only [eval, evalU]
+    exact step_congr hw fun x y hxy hx => pickleObj_congr_noD P hxy (hn x hx)
+  | @bin op e1 e2 _ _ ih1 ih2 =>
     simp only [eval]
     cases h1 : eval P env e1 <;> cases h2 : eval P env' e1 <;> simp_all [RLow]
     cases h3 : eval P env e2 <;> cases h4 : eval P env' e2 <;> simp_all [RLow]
     exact evalB_congr P op ih1 ih2
-  | red op axes e ih =>
+  | @red op axes e _ ih =>
     simp only [eval]
-    cases h1 : eval P env e <;> cases h2 : eval P env' e <;> simp_all [RLow]
-    exact evalR_congr P op axes ih
-  | sort axis e ih =>
+    exact step_congr ih fun x y hxy _ => evalR_congr P op axes hxy
+  | @sort axis e _ ih =>
     simp only [eval]
-    cases h1 : eval P env e <;> cases h2 : eval P env' e <;> simp_all [RLow]
-    exact ⟨ni_sort P ih.1 axis, trivial⟩
-  | index e iv ih =>
+    exact step_congr (f := fun x => ⟨sortCode P x.main axis, none⟩) (g := fun x => ⟨sortCode P x.main axis, none⟩) ih fun x y hxy _ => ⟨ni_sort P hxy.1 axis, trivial⟩
+  | @index e iv _ ih =>
     simp only [eval]
     cases h1 : eval P env e <;> cases h2 : eval P env' e <;> simp_all [RLow]
     exact getitemObj_congr ih (getD_forall2 h.2.1 iv _ _ (ALow.refl _))
-  | shrinkUnshrink am e ih =>
+  | @shrinkUnshrink am e _ ih =>
     simp only [eval]
-    cases h1 : eval P env e <;> cases h2 : eval P env' e <;> simp_all [RLow]
-    rw [h.2.2]
-    exact shrinkUnshrinkObj_congr P ih _
+    rw [h.2.2.1]
+    exact step_congr ih fun x y hxy _ => shrinkUnshrinkObj_congr P hxy _
+  | @powG ik ikm1 e _ ih =>
+    simp only [eval]
+    rw [h.2.2.2]
+    exact step_congr ih fun x y hxy _ => powObj_congr P _ _ hxy
+  | @mwF k il ir e _ ih =>
+    simp only [eval]
+    rw [h.2.2.2]
+    exact step_congr ih fun x y hxy _ => mwObj_congr_false P k _ _ hxy
+  | @mwW k il ir e _ ih =>
+    have hw : RLow (eval P env (.un .wod e)) (eval P env' (.un .wod e)) := by
+      simp only [eval]
+      cases h1 : eval P env e <;> cases h2 : eval P env' e <;> simp_all [RLow]
+      exact ⟨ih.1, trivial⟩
+    have hn : ∀ x, eval P env (.un .wod e) = .ok x → x.d = none := fun x hx => wod_result P hx
+    generalize Expr.un UOp.wod e = c at hw hn
+    simp only [eval]
+    rw [h.2.2.2]
+    exact step_congr hw fun x y hxy hx => mwObj_congr_noD P k _ _ true hxy (hn x hx)
+  | @clipT ilo ihi e _ ih =>
+    simp only [eval]
+    rw [h.2.2.2]
+    exact step_congr ih fun x y hxy _ => clipObj_congr_true P _ _ hxy
+  | @clipW ilo ihi e _ ih =>
+    have hw : RLow (eval P env (.un .wod e)) (eval P env' (.un .wod e)) := by
+      simp only [eval]
+      cases h1 : eval P env e <;> cases h2 : eval P env' e <;> simp_all [RLow]
+      exact ⟨ih.1, trivial⟩
+    have hn : ∀ x, eval P env (.un .wod e) = .ok x → x.d = none := fun x hx => wod_result P hx
+    generalize Expr.un UOp.wod e = c at hw hn
+    simp only [eval]
+    rw [h.2.2.2]
+    exact step_congr hw fun x y hxy hx => clipObj_congr_noD P _ _ false hxy (hn x hx)
 
 /-- **ni_program**: the observations (shape, expanded mask, unmasked values, unmasked derivative
     values, or the exception) of the two runs are EQUAL -/
-theorem ni_program (hs : SafeConsts P) {env env' : Env K} (h : EnvLow env env') (e : Expr) :
+theorem ni_program (hs : SafeConsts P) {env env' : Env K} (h : EnvLow env env') {e : Expr} (hsafe : Safe e) :
     obsRes (eval P env e) = obsRes (eval P env' e) :=
-  obsRes_congr (ni_program_low P hs h e)
+  obsRes_congr (ni_program_low P hs h hsafe)
 
 /-- comparisons at the root: the truth values are equal -/
-theorem ni_program_cmp (hs : SafeConsts P) {env env' : Env K} (h : EnvLow env env') (op : COp) (e1 e2 : Expr) :
+theorem ni_program_cmp (hs : SafeConsts P) {env env' : Env K} (h : EnvLow env env') (op : COp) {e1 e2 : Expr}
+    (h1s : Safe e1) (h2s : Safe e2) :
     (evalCmp P env op e1 e2).map obsArr = (evalCmp P env' op e1 e2).map obsArr := by
-  have r1 := ni_program_low P hs h e1
-  have r2 := ni_program_low P hs h e2
+  have r1 := ni_program_low P hs h h1s
+  have r2 := ni_program_low P hs h h2s
   unfold evalCmp
   cases h1 : eval P env e1 <;> cases h2 : eval P env' e1 <;> simp_all [RLow]
   cases h3 : eval P env e2 <;> cases h4 : eval P env' e2 <;> simp_all [RLow]
@@ -1161,7 +1240,7 @@ theorem ni_program_cmp (hs : SafeConsts P) {env env' : Env K} (h : EnvLow env en
   · exact key _ _ (fun _ _ _ _ ha hb => ni_elem_ord _ ha hb)
   · exact key _ _ (fun _ _ _ _ ha hb => ni_elem_ord _ ha hb)
 
-/-! ### ni_stmts: statement sequences (in-place operators = pure operator + rebinding) -/
+/-! ### ni_setitem and ni_stmts: statement sequences -/
 
 theorem F2_set {α : Type} {R : α → α → Prop} {l l' : List α} (h : F2 R l l') (i : Nat) {x x' : α} (hx : R x x') :
     F2 R (l.set i x) (l'.set i x') := by
@@ -1172,24 +1251,103 @@ theorem F2_set {α : Type} {R : α → α → Prop} {l l' : List α} (h : F2 R l
     | zero => exact .cons hx (by assumption)
     | succ n => exact .cons hr (ih n)
 
-/-- **ni_stmts**: for every sequence of statements (queries and rebinding assignments, any length)
-    over low-equivalent environments, every statement shows the same observation in both runs and the
-    final environments are low-equivalent again - induction over the statement list -/
-theorem ni_stmts (hs : SafeConsts P) (stmts : List Stmt) : ∀ {env env' : Env K}, EnvLow env env' →
+theorem valid_append2 : ∀ {s t : Shape} {i k : Index}, Valid s i → Valid t k → Valid (s ++ t) (i ++ k)
+  | [], _, [], _, _, hk => by simpa using hk
+  | [], _, _ :: _, _, hi, _ => by simp [Valid] at hi
+  | _ :: _, _, [], _, hi, _ => by simp [Valid] at hi
+  | n :: s, t, a :: i, k, hi, hk => by
+    have hi' : a < n ∧ Valid s i := hi
+    exact ⟨hi'.1, valid_append2 hi'.2 hk⟩
+
+theorem find_congr {α : Type} {p q : α → Bool} (l : List α) (h : ∀ x ∈ l, p x = q x) : l.find? p = l.find? q := by
+  induction l with
+  | nil => rfl
+  | cons a as ih =>
+    simp only [List.find?, h a (by simp)]
+    rw [ih fun x hx => h x (by simp [hx])]
+
+/-- **ni_setitem**: item assignment through a masked integer index object: which elements are written, and
+    with what, does not depend on hidden index values, hidden right-hand-side values or hidden target values -/
+theorem ni_setitem {x x' rhs rhs' : MArr K} {idx idx' : MArr Int} (hx : ALow x x') (hi : ALow idx idx')
+    (hr : ALow rhs rhs') : RLowA (setitemCode x idx rhs) (setitemCode x' idx' rhs') := by
+  unfold setitemCode
+  rw [← hx.1, ← hi.1, ← hr.1]
+  cases hs : x.shape with
+  | nil => rfl
+  | cons len rest =>
+    simp only []
+    cases hb : bcast rhs.shape (idx.shape ++ rest) with
+    | none => rfl
+    | some out =>
+      simp only []
+      by_cases hne : (out != idx.shape ++ rest) = true
+      · simp [hne]; rfl
+      · simp only [hne]
+        have hout : out = idx.shape ++ rest := by simpa using hne
+        have hfind : ∀ k : Nat,
+            ((indices idx.shape).reverse.find? fun j =>
+              !(idx.get j).m && !(decide ((idx.get j).v ≥ (len : Int)) || decide ((idx.get j).v < -(len : Int))) &&
+                ((idx.get j).v % (len : Int)).toNat == k)
+            = ((indices idx.shape).reverse.find? fun j =>
+              !(idx'.get j).m && !(decide ((idx'.get j).v ≥ (len : Int)) || decide ((idx'.get j).v < -(len : Int))) &&
+                ((idx'.get j).v % (len : Int)).toNat == k) := by
+          intro k
+          apply find_congr
+          intro j hj
+          have hjv : Valid idx.shape j := (mem_indices _ _).1 (by simpa using hj)
+          have hc := hi.2 j hjv
+          cases hm : (idx.get j).m with
+          | true =>
+            have hm' : (idx'.get j).m = true := by rw [← hc.1, hm]
+            simp [hm']
+          | false => rw [← hc.eq_of_unmasked hm]; simp [hm]
+        have hrb : ALow (rhs.bto out) (rhs'.bto out) :=
+          ALow_bto hr fun _ hv => bidx_valid hb hv
+        refine ⟨rfl, fun i hv => ?_⟩
+        have hv' : Valid (len :: rest) i := hv
+        match i, hv' with
+        | [], hv' => exact hv'.elim
+        | k :: r, hv' =>
+          show CLow (match (indices idx.shape).reverse.find? _ with | some j => _ | none => _)
+                    (match (indices idx.shape).reverse.find? _ with | some j => _ | none => _)
+          rw [← hfind k]
+          cases hf : (indices idx.shape).reverse.find? fun j =>
+              !(idx.get j).m && !(decide ((idx.get j).v ≥ (len : Int)) || decide ((idx.get j).v < -(len : Int))) &&
+                ((idx.get j).v % (len : Int)).toNat == k with
+          | none => exact hx.2 _ (by rw [hs]; exact hv')
+          | some j =>
+            have hjm := List.mem_of_find?_eq_some hf
+            have hjv : Valid idx.shape j := (mem_indices _ _).1 (by simpa using hjm)
+            exact hrb.2 _ (by rw [hout]; exact valid_append2 hjv hv'.2)
+
+/-- statements whose expressions are safe -/
+def SafeStmt : Stmt → Prop
+  | .assign _ e => Safe e
+  | .query e => Safe e
+  | .setitem _ _ e => Safe e
+
+/-- **ni_stmts**: for every sequence of statements (queries, rebinding assignments = in-place operators,
+    item assignments through masked index objects; any length) over low-equivalent environments, every
+    statement shows the same observation in both runs and the final environments are low-equivalent again -
+    induction over the statement list -/
+theorem ni_stmts (hs : SafeConsts P) (stmts : List Stmt) (hsafe : ∀ st ∈ stmts, SafeStmt st) :
+    ∀ {env env' : Env K}, EnvLow env env' →
     (runStmts P env stmts).1.map obsRes = (runStmts P env' stmts).1.map obsRes ∧
     EnvLow (runStmts P env stmts).2 (runStmts P env' stmts).2 := by
   induction stmts with
   | nil => intro env env' h; exact ⟨rfl, h⟩
   | cons st rest ih =>
     intro env env' h
+    have hrest : ∀ st ∈ rest, SafeStmt st := fun s hs' => hsafe s (by simp [hs'])
+    have hst : SafeStmt st := hsafe st (by simp)
     cases st with
     | query e =>
-      have he := ni_program P hs h e
-      have := ih h
+      have he := ni_program P hs h (show Safe e from hst)
+      have := ih hrest h
       simp only [runStmts, List.map_cons, he, this.1]
       exact ⟨trivial, this.2⟩
     | assign i e =>
-      have hl := ni_program_low P hs h e
+      have hl := ni_program_low P hs h (show Safe e from hst)
       have he := obsRes_congr hl
       have henv : EnvLow
           (match eval P env e with | .ok x => { env with objs := env.objs.set i x } | .error _ => env)
@@ -1198,8 +1356,50 @@ theorem ni_stmts (hs : SafeConsts P) (stmts : List Stmt) : ∀ {env env' : Env K
         · exact h
         · exact False.elim hl
         · exact False.elim hl
-        · exact ⟨F2_set h.1 i hl, h.2.1, h.2.2⟩
-      have := ih henv
+        · exact ⟨F2_set h.1 i hl, h.2.1, h.2.2.1, h.2.2.2⟩
+      have := ih hrest henv
+      simp only [runStmts, List.map_cons, he]
+      exact ⟨congrArg _ this.1, this.2⟩
+    | setitem i iv e =>
+      have hl := ni_program_low P hs h (show Safe e from hst)
+      have hxi : LowEq (env.objs.getD i (emptyObj P)) (env'.objs.getD i (emptyObj P)) :=
+        getD_forall2 h.1 i _ _ ⟨ALow.refl _, trivial⟩
+      have hidx : ALow (env.idxs.getD iv ⟨[], fun _ => ⟨0, true⟩⟩) (env'.idxs.getD iv ⟨[], fun _ => ⟨0, true⟩⟩) :=
+        getD_forall2 h.2.1 iv _ _ (ALow.refl _)
+      have hr : RLow (setStmt P env i iv e) (setStmt P env' i iv e) := by
+        unfold setStmt
+        cases h1 : eval P env e with
+        | error a =>
+          cases h2 : eval P env' e with
+          | error b => rw [h1, h2] at hl; exact hl
+          | ok _ => rw [h1, h2] at hl; exact False.elim hl
+        | ok rhs =>
+          cases h2 : eval P env' e with
+          | error b => rw [h1, h2] at hl; exact False.elim hl
+          | ok rhs' =>
+            rw [h1, h2] at hl
+            have hsi := ni_setitem hxi.1 hidx (show ALow rhs.main rhs'.main from hl.1)
+            show RLow (match setitemCode _ _ rhs.main with | .error er => .error er | .ok m => .ok ⟨m, none⟩)
+                      (match setitemCode _ _ rhs'.main with | .error er => .error er | .ok m => .ok ⟨m, none⟩)
+            cases h3 : setitemCode (env.objs.getD i (emptyObj P)).main (env.idxs.getD iv ⟨[], fun _ => ⟨0, true⟩⟩) rhs.main with
+            | error a =>
+              cases h4 : setitemCode (env'.objs.getD i (emptyObj P)).main (env'.idxs.getD iv ⟨[], fun _ => ⟨0, true⟩⟩) rhs'.main with
+              | error b => rw [h3, h4] at hsi; exact hsi
+              | ok _ => rw [h3, h4] at hsi; exact False.elim hsi
+            | ok m =>
+              cases h4 : setitemCode (env'.objs.getD i (emptyObj P)).main (env'.idxs.getD iv ⟨[], fun _ => ⟨0, true⟩⟩) rhs'.main with
+              | error b => rw [h3, h4] at hsi; exact False.elim hsi
+              | ok m' => rw [h3, h4] at hsi; exact ⟨hsi, trivial⟩
+      have he := obsRes_congr hr
+      have henv : EnvLow
+          (match setStmt P env i iv e with | .ok y => { env with objs := env.objs.set i y } | .error _ => env)
+          (match setStmt P env' i iv e with | .ok y => { env' with objs := env'.objs.set i y } | .error _ => env') := by
+        cases h1 : setStmt P env i iv e <;> cases h2 : setStmt P env' i iv e <;> rw [h1, h2] at hr
+        · exact h
+        · exact False.elim hr
+        · exact False.elim hr
+        · exact ⟨F2_set h.1 i hr, h.2.1, h.2.2.1, h.2.2.2⟩
+      have := ih hrest henv
       simp only [runStmts, List.map_cons, he]
       exact ⟨congrArg _ this.1, this.2⟩
 
@@ -1211,9 +1411,52 @@ def intPrims : Prims Int :=
     add := (· + ·), sub := (· - ·), mul := (· * ·), div := (· / ·), neg := (- ·), abs := fun x => x.natAbs,
     sign := Int.sign, lt := fun a b => decide (a < b), le := fun a b => decide (a ≤ b), eq := fun a b => decide (a = b),
     sqrt := id, log := id, exp := id, sin := id, cos := id, tan := id, asin := id, acos := id, atan := id,
-    expOv := fun x => decide (x > 700), ofNat := fun n => n }
+    expOv := fun x => decide (x > 700), ofNat := fun n => n,
+    fdiv := (· / ·), fmod := (· % ·), pow := fun a b => a ^ b.toNat, atan2 := fun a _ => a,
+    nonfinite := fun x => decide (x > 1000000) }
 
 example : SafeConsts intPrims := ⟨by decide, by decide, by decide, by decide, by decide⟩
+
+/-! ### the boundary of `Safe`: counterexamples for the three operations with leaking derivative rules
+(each witness is replayed on /repo, see known_findings.d/C03.json) -/
+
+def arr1 (c : Cell Int) : MArr Int := ⟨[1], fun _ => c⟩
+def arr2 (c0 c1 : Cell Int) : MArr Int := ⟨[2], fun i => if i = [0] then c0 else c1⟩
+
+theorem LowEq_arr1 {c c' d d' : Cell Int} (hc : CLow c c') (hd : CLow d d') :
+    LowEq (⟨arr1 c, some (arr1 d)⟩ : Obj Int) ⟨arr1 c', some (arr1 d')⟩ :=
+  ⟨⟨rfl, fun _ _ => hc⟩, rfl, rfl, fun _ _ => hd⟩
+
+/-- KF-C03-12: `mask_where_ge(1, remask=True)` on an object whose derivative is NOT masked where the
+    object is: the derivative's own mask afterwards depends on the hidden number (5 vs 0) -/
+theorem ni_maskwhere_deriv_counterexample :
+    ∃ x y : Obj Int, LowEq x y ∧
+      obsObj (mwObj intPrims .ge 1 none true x) ≠ obsObj (mwObj intPrims .ge 1 none true y) :=
+  ⟨⟨arr1 ⟨5, true⟩, some (arr1 ⟨4, false⟩)⟩, ⟨arr1 ⟨0, true⟩, some (arr1 ⟨4, false⟩)⟩,
+   LowEq_arr1 ⟨rfl, fun h => by cases h⟩ (CLow.refl _), by decide⟩
+
+/-- KF-C03-11: `clip(-1, 1, remask=False)`: the derivative element of a masked, out-of-range hidden value
+    is overwritten by an UNMASKED zero -/
+theorem ni_clip_deriv_counterexample :
+    ∃ x y : Obj Int, LowEq x y ∧
+      obsObj (clipObj intPrims (-1) 1 false x) ≠ obsObj (clipObj intPrims (-1) 1 false y) :=
+  ⟨⟨arr1 ⟨5, true⟩, some (arr1 ⟨9, true⟩)⟩, ⟨arr1 ⟨0, true⟩, some (arr1 ⟨9, true⟩)⟩,
+   LowEq_arr1 ⟨rfl, fun h => by cases h⟩ (CLow.refl _), by decide⟩
+
+/-- KF-C03-13: pickling an object with a partially masked array mask stores the derivative under the
+    OBJECT's mask: the number hidden underneath the derivative's own mask (7 vs 8) is written and shown -/
+theorem ni_pickle_deriv_counterexample :
+    ∃ x y : Obj Int, LowEq x y ∧ obsObj (pickleObjCode intPrims x) ≠ obsObj (pickleObjCode intPrims y) :=
+  ⟨⟨arr2 ⟨1, false⟩ ⟨2, true⟩, some (arr2 ⟨7, true⟩ ⟨0, true⟩)⟩,
+   ⟨arr2 ⟨1, false⟩ ⟨2, true⟩, some (arr2 ⟨8, true⟩ ⟨0, true⟩)⟩,
+   ⟨ALow.refl _, rfl, rfl, fun i _ => by
+      show CLow (if i = [0] then _ else _) (if i = [0] then _ else _)
+      by_cases hi : i = [0] <;> simp [hi, CLow]⟩,
+   by decide⟩
+
+/-- a safe program with every kind of node -/
+example : Safe (.mw .ge 0 none true (.un .wod (.bin .mod (.powG 1 2 (.var 0)) (.clip 0 1 true (.var 1))))) :=
+  .mwW (.bin (.powG (.var 0)) (.clipT (.var 1)))
 
 /-- two elements that differ underneath the mask are low-equivalent -/
 example : CLow (⟨-5, true⟩ : Cell Int) ⟨7, true⟩ := ⟨rfl, fun h => by cases h⟩
